@@ -3451,6 +3451,8 @@ impl GatheringTask for StopTask {
                 "Workers take too long to stop ({} ok, {} errors), stopping the main process to sever the link",
                 self.gatherer.ok, self.gatherer.errors
             ));
+            server.run_state = ServerState::Stopping;
+            return;
         }
         server.run_state = ServerState::Stopping;
         // POSTCONDITION: shutdown is now committed.
